@@ -170,7 +170,29 @@ def F19():
         return True
 
 
-ALL = ['F1', 'F2', 'F4', 'F5', 'F6', 'F8', 'F9', 'F11', 'F12', 'F13', 'F15', 'F16', 'F17', 'F18', 'F19']
+def _gumbel1():
+    from copulas.bivariate import Gumbel
+    g = Gumbel(); g.theta = 1.0; g.tau = 0.0
+    return g
+
+
+def F20():
+    X = np.array([[0.3, 0.7], [0.9, 0.2]])
+    return not np.allclose(_gumbel1().partial_derivative(X), X[:, 0])
+
+
+def F21():
+    from copulas.bivariate.independence import Independence
+    X = np.array([[0.3, 0.7], [0.9, 0.2]])
+    return not np.allclose(Independence().partial_derivative(X), X[:, 0])
+
+
+def F22():
+    X = np.array([[0.3, 0.7], [0.9, 0.2]])
+    return not np.allclose(_gumbel1().probability_density(X), 1.0)
+
+
+ALL = ['F1', 'F2', 'F4', 'F5', 'F6', 'F8', 'F9', 'F11', 'F12', 'F13', 'F15', 'F16', 'F17', 'F18', 'F19', 'F20', 'F21', 'F22']
 if __name__ == '__main__':
     for name in (sys.argv[1:] or ALL):
         try:
